@@ -130,6 +130,14 @@ type scenario struct {
 	Site  []node `json:"site"`
 }
 
+type ptrErr struct{ msg string }
+
+func (e *ptrErr) Error() string { return e.msg }
+
+type panicErr struct{}
+
+func (panicErr) Error() string { panic("Error() panics") }
+
 type lazy struct{ v slog.Value }
 
 func (l lazy) LogValue() slog.Value { return l.v }
@@ -254,6 +262,8 @@ func runValues(out string) {
 		{"map", map[string]int{"a": 1}}, {"struct", plainStruct{1, "x"}}, {"slice", []int{1, 2}},
 		{"marshalOK", mOK{}}, {"marshalFail", mFail{}}, {"marshalGarbage", mGarbage{}}, {"marshalMultiline", mMultiline{}},
 		{"valuerStr", lazy{slog.StringValue("LV")}}, {"valuerInt", lazy{slog.Int64Value(5)}}, {"valuerErr", lazy{slog.AnyValue(errors.New("E!"))}},
+		// error values whose Error method cannot be called: a nil pointer receiver, a method that panics
+		{"nilErrPtr", (*ptrErr)(nil)}, {"valuerNilErrPtr", lazy{slog.AnyValue((*ptrErr)(nil))}}, {"panicErr", panicErr{}},
 		{"valuerNaN", lazy{slog.Float64Value(math.NaN())}}, {"valuerGroup", lazy{slog.GroupValue(slog.Int("a", 1))}},
 		{"valuerEmptyGroup", lazy{slog.GroupValue()}}, {"valuerMarshalFail", lazy{slog.AnyValue(mFail{})}},
 		{"big", strings.Repeat("x", 20000)}, {"bigbytes", bytes20k()},
@@ -281,21 +291,24 @@ func runValues(out string) {
 				for _, where := range []string{"site", "with", "group"} {
 					c := &capture{}
 					l := logger.New(logger.NewJsonHandler(c, logger.NewOptions(logger.LevelDebug, false, addSource)))
-					switch where {
-					case "site":
-						if tz, isT := k.v.(time.Time); isT && k.name == "timeZ" && !addSource {
-							// the record's own time in that zone as well (straight through the handler)
-							r := slog.NewRecord(tz, level, "m", 0)
-							r.Add("v", k.v, "z", 1)
-							logger.NewJsonHandler(c, logger.NewOptions(logger.LevelDebug, false, false)).Handle(context.Background(), r)
-						} else {
-							l.Log(nil, level, "m", "v", k.v, "z", 1)
+					func() {
+						defer func() { recover() }() // a logging call that panics has written nothing: judged as such
+						switch where {
+						case "site":
+							if tz, isT := k.v.(time.Time); isT && k.name == "timeZ" && !addSource {
+								// the record's own time in that zone as well (straight through the handler)
+								r := slog.NewRecord(tz, level, "m", 0)
+								r.Add("v", k.v, "z", 1)
+								logger.NewJsonHandler(c, logger.NewOptions(logger.LevelDebug, false, false)).Handle(context.Background(), r)
+							} else {
+								l.Log(nil, level, "m", "v", k.v, "z", 1)
+							}
+						case "with":
+							l.With("v", k.v).Log(nil, level, "m", "z", 1)
+						default:
+							l.WithGroup("g").Log(nil, level, "m", slog.Group("h", slog.Any("v", k.v)), "z", 1)
 						}
-					case "with":
-						l.With("v", k.v).Log(nil, level, "m", "z", 1)
-					default:
-						l.WithGroup("g").Log(nil, level, "m", slog.Group("h", slog.Any("v", k.v)), "z", 1)
-					}
+					}()
 					line, ok := oneLine(c)
 					toks, _ := lex(line)
 					recTimeOK := true
